@@ -25,9 +25,12 @@ Stuck == {"TypeMismatch", "FieldAccessInvalid", "CallInvalid", "ArityMismatch", 
 Has(pairs, id) == \E n \in 1..Len(pairs) : pairs[n][1] = id
 Get(pairs, id) == pairs[CHOOSE n \in 1..Len(pairs) : pairs[n][1] = id][2]
 
-RECURSIVE Inh(_, _, _, _)
-Inh(v, T, G, d) ==
-  IF d = 0 THEN TRUE
+IsNil(v) == v.k = "tup" /\ v.tn = <<>> /\ v.fs = <<>>
+
+\* nl: nil-tolerant judgement (see InhabitsUpToNil below)
+RECURSIVE Inh(_, _, _, _, _)
+Inh(v, T, G, d, nl) ==
+  IF d = 0 \/ (nl /\ IsNil(v)) THEN TRUE
   ELSE
   CASE T.k = "int" -> v.k = "int"
     [] T.k = "bin" -> v.k = "bin"
@@ -40,15 +43,15 @@ Inh(v, T, G, d) ==
               /\ Len(v.fs) = Len(info.fs)
               /\ \A n \in 1..Len(info.fs) :
                     /\ v.ls[n] = info.fs[n][1]
-                    /\ (Has(G.types, info.fs[n][2]) => Inh(v.fs[n], Get(G.types, info.fs[n][2]), G, d - 1))
-    [] T.k = "union" -> \E n \in 1..Len(T.ms) : Has(G.types, T.ms[n]) => Inh(v, Get(G.types, T.ms[n]), G, d - 1)
+                    /\ (Has(G.types, info.fs[n][2]) => Inh(v.fs[n], Get(G.types, info.fs[n][2]), G, d - 1, nl))
+    [] T.k = "union" -> \E n \in 1..Len(T.ms) : Has(G.types, T.ms[n]) => Inh(v, Get(G.types, T.ms[n]), G, d - 1, nl)
     [] T.k = "partial" ->
          /\ v.k = "tup"
          /\ (T.name = <<>> \/ v.tn = T.name)
          /\ \A n \in 1..Len(T.fs) :
                \E m \in 1..Len(v.fs) :
                   /\ v.ls[m] = T.fs[n][1]
-                  /\ (Has(G.types, T.fs[n][2]) => Inh(v.fs[m], Get(G.types, T.fs[n][2]), G, d - 1))
+                  /\ (Has(G.types, T.fs[n][2]) => Inh(v.fs[m], Get(G.types, T.fs[n][2]), G, d - 1, nl))
     [] T.k = "fn" -> v.k = "fn"
     [] T.k = "process" -> v.k = "pid"
     [] T.k = "resource" -> v.k = "res"
@@ -57,8 +60,14 @@ Inh(v, T, G, d) ==
 Judge(r) ==
   LET m1 == IF r.outcome.t = "error" /\ r.outcome.e \in Stuck
             THEN PrintT("MISMATCH|" \o r.id \o "|NotStuck|" \o r.outcome.e) ELSE TRUE
-      m2 == IF r.outcome.t = "value" /\ r.rich # <<>> /\ ~Inh(r.rich[1], r.type.root, r.type, 12)
-            THEN PrintT("MISMATCH|" \o r.id \o "|Inhabits|" \o ToString(<<r.rich[1], r.type_text>>)) ELSE TRUE
+      \* Records marked nilok come from the program families in which the pinned defect
+      \* bound-variable-loses-nil (a variable bound to nil is typed without nil; known_findings.json)
+      \* strikes in a large share of the programs: there a nil is accepted at any position
+      \* (InhabitsUpToNil); every other disagreement between value and type is still reported.
+      nl == "nilok" \in DOMAIN r /\ r.nilok
+      m2 == IF r.outcome.t = "value" /\ r.rich # <<>> /\ ~Inh(r.rich[1], r.type.root, r.type, 12, nl)
+            THEN PrintT("MISMATCH|" \o r.id \o "|" \o (IF nl THEN "InhabitsUpToNil" ELSE "Inhabits") \o "|"
+                        \o ToString(<<r.rich[1], r.type_text>>)) ELSE TRUE
   IN m1 /\ m2
 
 Init == i = 1
